@@ -22,10 +22,11 @@ CONSTANTS Type,        \* "oc" / "at" / "dcr"
           Quoted,      \* TRUE: also derive the quoted SYNTAX variant of Active Directory
           MaxChoices
 
-NumPool == << <<49, 46, 50>>, <<48, 46, 57, 46, 50, 51, 52, 50, 46, 49, 57, 50, 48, 48, 51, 48, 48, 46, 49, 48, 48, 46, 49, 46, 49>>, <<50, 46, 53, 46, 54, 46, 54>>, <<49, 46, 48>> >>
+NumPool == << <<49, 46, 50>>, <<48, 46, 57, 46, 50, 51, 52, 50, 46, 49, 57, 50, 48, 48, 51, 48, 48, 46, 49, 48, 48, 46, 49, 46, 49>>, <<50, 46, 53, 46, 54, 46, 54>>, <<49, 46, 48>>,
+             <<50, 46, 50, 53, 46, 51, 50, 57, 56, 48, 48, 55, 51, 53, 54, 57, 56, 53, 56, 54, 54, 50, 57, 50, 57, 53, 54, 52, 49, 57, 55, 56, 53, 49, 49, 53, 48, 54, 49, 55, 50, 57, 49, 56>> >>   \* 2.25.<UUID as one 39-digit arc> (X.667)
 DescrPool == << <<99, 110>>, <<99, 111, 109, 109, 111, 110, 78, 97, 109, 101>>, <<120, 45, 121>>, <<65, 49, 45>>, <<116, 111, 112>>,
                <<67, 78>>, <<84, 111, 80>> >>      \* CN, ToP: the same descriptors in another letter case
-OidPool == << DescrPool[1], NumPool[3], DescrPool[2], NumPool[2], DescrPool[3], DescrPool[4], DescrPool[6], DescrPool[5], DescrPool[7] >>
+OidPool == << DescrPool[1], NumPool[3], DescrPool[2], NumPool[2], DescrPool[3], DescrPool[4], DescrPool[6], DescrPool[5], DescrPool[7], NumPool[5] >>
 StrPool == << <<97>>,                                             \* a
               <<105, 116, 39, 115>>,                              \* it's
               <<67, 58, 92, 50, 55, 45, 115>>,                    \* C:\27-s   (a backslash followed by "27")
@@ -42,8 +43,11 @@ StrPool == << <<97>>,                                             \* a
               <<92, 53, 99, 50, 55>>,                             \* \5c27
               <<97, 32, 98>>,                                     \* "a b"
               <<97, 32, 32, 98>>,                                 \* "a  b"   (differs from the previous one only in the number of spaces)
-              <<97, 32, 32, 32, 98>> >>                           \* "a   b"
-XNamePool == << <<79, 82, 73, 71, 73, 78>>, <<65, 66, 67, 95, 68, 69, 70, 45, 71, 72, 73>>, <<45>>, <<97>> >>
+              <<97, 32, 32, 32, 98>>,                             \* "a   b"
+              <<97, 10, 32, 98>>,                                 \* "a" LF SPACE "b"    (what an LDIF unfolder would remove)
+              <<97, 13, 10, 32, 98>> >>                           \* "a" CR LF SPACE "b"
+\* the name after the "X-" prefix; the second one itself begins with "X-" (the sentence reads X-X-FOO)
+XNamePool == << <<79, 82, 73, 71, 73, 78>>, <<88, 45, 70, 79, 79>>, <<65, 66, 67, 95, 68, 69, 70, 45, 71, 72, 73>>, <<45>>, <<97>> >>
 LenPool == << <<48>>, <<49>>, <<54, 52>>, <<50, 49, 52, 55, 52, 56, 51, 54, 52, 55>>, <<52, 50, 57, 52, 57, 54, 55, 50, 57, 54>> >>
 
 Need(n) == [need |-> n]
